@@ -72,3 +72,19 @@ def library(w, contigs, method, n_target=None, defects=True, cells=None, dense=F
                 frags.append(f)
             mol += 1
     return frags[:max(n_target, 0)] if n_target else []
+
+
+def many_small_contigs(w, method, n=None):
+    """scaffold-rich assembly: 55..80 contigs just under the small-contig threshold, one or two fragments each
+    (their total length exceeds the 5 Mb job size used for chic / nla)"""
+    n = n or w.randint(55, 80)
+    genome = [[f'scaf{i}', w.randint(90000, 99900)] for i in range(n)]
+    kind = {'nla': 'nla', 'chic': 'chic', 'qflag': 'plain'}[method]
+    frags = []
+    for ci in range(n):
+        for _ in range(w.choice([1, 1, 2])):
+            L = w.randint(40, 200)
+            frags.append({'n': 1000 + len(frags), 'cell': w.randrange(3), 'ctg': ci, 'site': w.randint(500, 80000), 'rev': w.random() < 0.5,
+                          'umi': ''.join(w.choice('ACGT') for _ in range(3)), 'L': L, 'rl': 30, 'kind': kind, 'defect': None, 'clip': 0, 'mol': len(frags),
+                          'fc': 1, 'lane': 1})
+    return genome, frags
